@@ -35,6 +35,8 @@ var c13Menu = []string{
 	"//*/@*", "(/* | //b)/@*", "(/* | /*/c)/@*", "(/*/b[1] | //d)/@*", "(/*/b[1] | /*/c)/node()", "(/*/b[1] | //d)/namespace::*", "//*/namespace::*", "//*/*", "//*/node()", "//b/preceding-sibling::node()", "//c/following-sibling::node()", "//*/@*/..", "//b/ancestor::*/@*", "$v/*", "$v/node()",
 	// a call to the one function of the caller's own function table
 	"$v[one()]", "count($w) + one()",
+	// unions with an empty operand (nothing to merge: the non-empty operand must still not be touched)
+	"$v | //nosuch", "//nosuch | $v", "count($v | $v[false()])",
 }
 
 var c13Ctx = []string{"/", "/0/0", "/0/@0"}
